@@ -50,7 +50,7 @@ R15i a state is final for its invocation only: the command visitors (visit_UodCo
      request carries the same id: the other request executes the invocation, and its Started after the Cancelled makes
      get_runlog() raise for the rest of the run.
 Decides these clauses; does not decide producibility for every runtime state order beyond R15f (the raise sites in
-_get_record_runlog_items depend on runtime data), nor monotonicity of the engine clock itself.
+_get_record_runlog_items depend on runtime data); the state clock itself is monotone by R15a, the wall clock it follows is not decided.
 R15j Cancelled only for what has not concluded: the part of _cancel_command for a request with no registered command instance also sees
      requests whose command completed (or failed) and was finalized *earlier in the same tick* - they stay in the executing list until
      the commit at the end of the tick. Recording Cancelled for them puts a second conclusive state behind Completed: every
